@@ -78,6 +78,39 @@ Theorem C18_contiguous : forall nfrag nfw sched,
 Proof. exact wire_contiguous. Qed.
 Print Assumptions C18_contiguous.
 
+(* the write-ready wake-up is never lost: handleEvent processes every bit of an epoll event, so an event that carries
+   EPOLLOUT (or EPOLLRDHUP) releases a writer parked on onWriteReadyCh after EAGAIN whatever else the event carries
+   (in particular EPOLLIN|EPOLLOUT, which for an edge-triggered fd may be the only report) ... *)
+Theorem C18_wakeup : forall w e, wake_ok w -> ev_out e = true \/ ev_rdhup e = true ->
+  wparked (wake_event w e) = false.
+Proof. exact wakeup_out. Qed.
+Print Assumptions C18_wakeup.
+
+(* ... and when the event overtakes the writer (EAGAIN seen, channel receive not yet reached) the notification waits
+   in the channel: the receive does not block.  [wake_ok] (nobody is parked on a closed channel) holds initially and
+   is preserved by every step. *)
+Theorem C18_wakeup_kept : forall w e, ev_out e = true \/ ev_rdhup e = true ->
+  wparked w = false -> wparked (wake_wait (wake_event w e)) = false.
+Proof. exact wakeup_kept. Qed.
+Print Assumptions C18_wakeup_kept.
+
+Theorem C18_wake_ok_invariant : forall w e,
+  wake_ok {| wparked := false; wtoken := false; wclosed := false |} /\
+  (wake_ok w -> wake_ok (wake_wait w) /\ wake_ok (wake_event w e)).
+Proof. intros w e. split; [apply wake_ok_init|]. intros H. split; [apply wake_ok_wait | apply wake_ok_event]; exact H. Qed.
+Print Assumptions C18_wake_ok_invariant.
+
+(* what the theorem excludes: a dispatch that treats the bits as alternatives (a `switch` over RDHUP / IN / OUT runs
+   only the first matching case) drops the write-ready half of an IN|OUT event and leaves the writer parked *)
+Definition handle_event_first_match (e : epev) : list hcall :=
+  if ev_rdhup e then [CRemoteClose] else if ev_in e then [CReadReady] else if ev_out e then [CWriteReady] else [].
+Example C18_first_match_dispatch_loses_wakeup :
+  let parked := {| wparked := true; wtoken := false; wclosed := false |} in
+  let in_out := {| ev_rdhup := false; ev_in := true; ev_out := true |} in
+  wparked (fold_left wake_call (handle_event_first_match in_out) parked) = true /\
+  wparked (wake_event parked in_out) = false.
+Proof. vm_compute. split; reflexivity. Qed.
+
 (* ---- non-vacuity ---------------------------------------------------------------------------------------------- *)
 (* a tiny buffer (4 bytes, threshold 6, shrink above 8): growth with a non-zero start offset (compaction), the
    threshold callback, partial consumption and the shrink path all happen *)
